@@ -727,7 +727,16 @@ def call_closure(i, fr, st, pc, clos, args):
             return i.opaque_fns[key](i, fr, list(args), st, pc, {"span": None, "snippet": None})
         body = i.facts.body(key)
         if body is None:
-            raise Undecided("call of non-local function item %s" % key)
+            # a std function used as a value (`.all(u8::is_ascii_hexdigit)`): its library summary
+            path = clos.data[1] if len(clos.data) > 1 else None
+            fn_ = dict(path=path, key=key, name=(path or "").split("::")[-1], args=list(clos.data[2]) if len(clos.data) > 2 else [])
+            if path:
+                try:
+                    return call(i, fr, st, pc, path, fn_, None, list(args), {"span": None, "snippet": None})
+                except Undecided as e:
+                    if not str(e.cause).startswith("unmodelled:"):
+                        raise
+            raise Undecided("call of non-local function item %s" % (path or key))
         return i.call_mir(body, body["mir"], list(args), st, dict(fr.env), fr.depth + 1, pc)
     if not (isinstance(clos, Agg) and clos.kind == "closure"):
         raise Undecided("call of non-closure %r" % (clos,))
@@ -1490,6 +1499,14 @@ def int_method(i, fr, st, pc, a, t, fn, r, name=None, tyname=None):
         res, c = (w_add if name.endswith("add") else w_sub)(x, a[1])
         return _ret(i, st, pc, Agg("tuple", None, 0, (res, W(1, bits=[c]))))
     if name in ("checked_add", "checked_sub", "saturating_add", "saturating_sub", "checked_mul", "wrapping_mul", "saturating_mul", "pow", "checked_pow", "wrapping_neg", "abs_diff", "min", "max", "rem_euclid", "div_euclid", "checked_div", "checked_rem", "next_power_of_two", "is_power_of_two", "ilog2", "leading_zeros", "trailing_ones", "leading_ones", "count_zeros", "rotate_left", "rotate_right", "swap_bytes", "reverse_bits"):
+        if not conc and name == "wrapping_mul" and len(a) == 2 and isinstance(a[1], W) and (x.val is not None or a[1].val is not None):
+            # multiplication by a constant: shift-and-add over the set bits of the constant (exact bit functions)
+            sym, k = (x, a[1].val) if a[1].val is not None else (a[1], x.val)
+            acc = W(w, val=0, signed=x.signed)
+            for sh in range(w):
+                if (k >> sh) & 1:
+                    acc = w_add(acc, w_shl(sym, sh))[0]
+            return _ret(i, st, pc, acc)
         if not conc:
             raise Undecided("symbolic %s" % name)
         M = (1 << w) - 1
@@ -3466,6 +3483,73 @@ def _from_int_dispatch(path):
         ext = bits[-1] if ssigned else ZERO
         return _ret(i, st, pc, W(dw, bits=(bits + [ext] * dw)[:dw], signed=dsigned))
     return h
+
+
+def slice_rchunks(exact):
+    """rchunks / rchunks_exact (and _mut): chunks taken from the end; a short remainder chunk comes last (at the front)"""
+    def f(i, fr, st, pc, a, t, fn, r):
+        p, c = a
+        if isinstance(p, Ptr) and p.sl is None:
+            inner = i.read_ptr(st, p)
+            if isinstance(inner, Ptr):
+                p = inner
+        if c.val is None:
+            raise Undecided("chunk size")
+        if c.val == 0:
+            return i.panic(st, pc, "chunk size must be non-zero", fr, t)
+        n = i.slice_len(st, p)
+        start = p.sl[0] if p.sl else 0
+        out = []
+        end = n
+        while end > 0:
+            ln = min(c.val, end)
+            if ln < c.val and exact:
+                break
+            out.append(Ptr(p.cell, p.path, (start + end - ln, ln), "ref"))
+            end -= ln
+        return _ret(i, st, pc, Opaque("vals", (tuple(out), usize(0))))
+    return f
+
+
+def vals_len(i, fr, st, pc, a, t, fn, r):
+    """ExactSizeIterator::len / count of a materialised iterator"""
+    it = i.read_ptr(st, a[0]) if isinstance(a[0], Ptr) else a[0]
+    if isinstance(it, Opaque) and it.kind == "vals":
+        return _ret(i, st, pc, usize(len(it.data[0]) - it.data[1].val))
+    if isinstance(it, Opaque) and it.kind == "slice_iter":
+        return _ret(i, st, pc, usize(it.data[2].val - it.data[1].val))
+    raise Undecided("len of %r" % (it,))
+
+
+for _nm, _ex in (("rchunks", False), ("rchunks_mut", False), ("rchunks_exact", True), ("rchunks_exact_mut", True)):
+    TABLE["core::slice::<impl [T]>::" + _nm] = slice_rchunks(_ex)
+for _ty in ("RChunks<'a, T>", "RChunksMut<'a, T>", "RChunksExact<'a, T>", "RChunksExactMut<'a, T>"):
+    TABLE["<std::slice::%s as std::iter::Iterator>::next" % _ty] = multi_next
+TABLE["std::iter::ExactSizeIterator::len"] = vals_len
+
+
+def str_from_utf8(i, fr, st, pc, a, t, fn, r):
+    """str::from_utf8 on bytes that are all single-byte characters (bit 7 known to be 0): Ok(the same text)"""
+    bs = []
+    for e in i.slice_elems(st, a[0]):
+        b = i.read_ptr(st, e) if isinstance(e, Ptr) else e
+        if not isinstance(b, W):
+            raise Undecided("from_utf8 of %r" % (b,))
+        if (b.val is not None and b.val >= 128) or (b.val is None and b.all_bits()[7] != ZERO):
+            raise Undecided("from_utf8 of possibly non-ASCII bytes")
+        bs.append(b)
+    v = Opaque("bstr", (tuple(bs),))
+    if fn["name"] == "from_utf8_unchecked":
+        return _ret(i, st, pc, v)
+    return _ret(i, st, pc, Agg("adt", RESULT, 0, (v,)))
+
+
+TABLE.update({
+    "std::str::from_utf8": str_from_utf8,
+    "core::str::from_utf8": str_from_utf8,
+    "std::str::from_utf8_unchecked": str_from_utf8,
+    "core::str::from_utf8_unchecked": str_from_utf8,
+})
 
 
 def _int_dispatch(path):
